@@ -247,6 +247,50 @@ var c05RecShapes = []c05RecShape{
 	{"static.createLowPass", `int(createLowPass("y",p->1.0,p->float(rf(n+1)),1.0).initial({t:0}).y)`},
 }
 
+// mixed recursion: k directly recursive levels between two hops through a method that forks a private stack
+// (funcGen.NewEmptyStackBelow), in both orders; the depth count must be inherited over every hop
+var c05Hops = []c05RecShape{
+	{"list.map", "[n].map(e->rf(e+1)).first()"},
+	{"list.accept", "[n].accept(e->rf(e+1)>=0).size()"},
+	{"list.multiUse", "[n].multiUse({u:l->l.size()+rf(n+1)-1}).u"},
+	{"merge-operand", "[n,n].combine((p,q)->rf(q+1)).merge([],(p,q)->p<q).first()"},
+}
+
+type c05MixedShape struct {
+	c05RecShape
+	Hop     string
+	Between int
+}
+
+func c05MixedShapes() []c05MixedShape {
+	var r []c05MixedShape
+	for _, h := range c05Hops {
+		for _, k := range []int{100, 999, 3000} {
+			r = append(r, c05MixedShape{c05RecShape{fmt.Sprintf("mixed:%d-direct-then-%s", k, h.Method),
+				fmt.Sprintf("if n%%%d=%d then %s else rf(n+1)", k+1, k, h.Body)}, h.Method, k})
+			r = append(r, c05MixedShape{c05RecShape{fmt.Sprintf("mixed:%s-then-%d-direct", h.Method, k),
+				fmt.Sprintf("if n%%%d=0 then %s else rf(n+1)", k+1, h.Body)}, h.Method, k})
+		}
+	}
+	return r
+}
+
+func c05LeafMixed(sh c05MixedShape, runaway bool) c05Leaf {
+	depth := fmt.Sprint(c05RecBound)
+	pre := fmt.Sprintf("func rf(n) if n>%d then 0 else %s; ", c05RecBound, sh.Body)
+	if runaway {
+		depth = "4611686018427387904"
+		pre = "func rf(n) " + sh.Body + "; "
+	}
+	l := c05LeafFault("recursion-through:"+sh.Method, pre, "rf(a)",
+		fmt.Sprintf("(FRecMixed %s %d 1 8 %s)", CoqStr(sh.Hop), sh.Between, depth))
+	l.Heavy = true
+	if runaway {
+		l.MaxStack, l.D = c05BigStack, c05BigStack/1024
+	}
+	return l
+}
+
 const c05RecBound = 12000 // deeper than the 10000 slots of the guard
 
 // the built-ins of value.New() whose documentation mentions a function argument; every one of them must
@@ -343,6 +387,9 @@ type c05Ctx struct {
 	Gor  bool   // the closure holding the fault may run off the calling goroutine
 }
 
+// only the panic-focused representatives are placed in these contexts
+func (c c05Ctx) focus() bool { return strings.Contains(c.Name, "accept-reject") }
+
 var c05Contexts = []c05Ctx{
 	{"top", "KTop", "let m=mark(0); %F", false, false},
 	{"closure", "KClosure", "let k=z->let m=mark(0); %F; k(0)", false, false},
@@ -375,6 +422,31 @@ var c05Contexts = []c05Ctx{
 	{"top-map-lazy", "KTopMapLazy", "{x:[1,2,3].map(z->let m=mark(0); let t=%F; z)}", false, false},
 	{"top-list-lazy", "KTopListLazy", "[[1,2,3].map(z->let m=mark(0); let t=%F; z)]", false, false},
 	{"top-map-map-lazy", "KTopMapMapLazy", "{x:{y:[1,2,3].map(z->let m=mark(0); let t=%F; z)}}", false, false},
+	// a parallel accept that rejects items (or a parallel map followed by an accept), then a consumer holding the
+	// fault at the first items that are delivered by the collecting goroutine; only the panic-focused sources
+	{"par-accept-reject-1-reduce", "KAccDown", "numbers(40).accept(z->slow(z)>=1).reduce((p,q)->if q<12 then 0 else let m=mark(0); let t=%F; 0)", true, true},
+	{"par-accept-reject-6-reduce", "KAccDown", "numbers(40).accept(z->slow(z)>=6).reduce((p,q)->if q<12 then 0 else let m=mark(0); let t=%F; 0)", true, true},
+	{"par-accept-reject-11-reduce", "KAccDown", "numbers(40).accept(z->slow(z)>=11).reduce((p,q)->if q<12 then 0 else let m=mark(0); let t=%F; 0)", true, true},
+	{"par-accept-reject-12-reduce", "KAccDown", "numbers(40).accept(z->slow(z)>=12).reduce((p,q)->if q<12 then 0 else let m=mark(0); let t=%F; 0)", true, true},
+	{"par-accept-reject-20-reduce", "KAccDown", "numbers(40).accept(z->slow(z)>=20).reduce((p,q)->if q<12 then 0 else let m=mark(0); let t=%F; 0)", true, true},
+	{"par-accept-reject-odd-reduce", "KAccDown", "numbers(40).accept(z->slow(z)%2=1).reduce((p,q)->if q<12 then 0 else let m=mark(0); let t=%F; 0)", true, true},
+	{"par-accept-reject-1-visit", "KAccDown", "numbers(40).accept(z->slow(z)>=1).visit(0,(v,e)->if e<12 then 0 else let m=mark(0); let t=%F; 0)", true, true},
+	{"par-accept-reject-1-present", "KAccDown", "numbers(40).accept(z->slow(z)>=1).present(e->if e<12 then false else let m=mark(0); let t=%F; false)", true, true},
+	{"par-accept-reject-1-map", "KAccDownMap", "numbers(40).accept(z->slow(z)>=1).map(y->if y<12 then 0 else let m=mark(0); let t=%F; 0).sum()", true, true},
+	{"par-accept-reject-12-visit", "KAccDown", "numbers(40).accept(z->slow(z)>=12).visit(0,(v,e)->if e<12 then 0 else let m=mark(0); let t=%F; 0)", true, true},
+	{"par-accept-reject-12-present", "KAccDown", "numbers(40).accept(z->slow(z)>=12).present(e->if e<12 then false else let m=mark(0); let t=%F; false)", true, true},
+	{"par-accept-reject-12-map", "KAccDownMap", "numbers(40).accept(z->slow(z)>=12).map(y->if y<12 then 0 else let m=mark(0); let t=%F; 0).sum()", true, true},
+	{"par-accept-reject-odd-visit", "KAccDown", "numbers(40).accept(z->slow(z)%2=1).visit(0,(v,e)->if e<12 then 0 else let m=mark(0); let t=%F; 0)", true, true},
+	{"par-accept-reject-odd-present", "KAccDown", "numbers(40).accept(z->slow(z)%2=1).present(e->if e<12 then false else let m=mark(0); let t=%F; false)", true, true},
+	{"par-accept-reject-odd-map", "KAccDownMap", "numbers(40).accept(z->slow(z)%2=1).map(y->if y<12 then 0 else let m=mark(0); let t=%F; 0).sum()", true, true},
+	{"try-par-accept-reject-1-reduce", "KTryAccDown", "try numbers(40).accept(z->slow(z)>=1).reduce((p,q)->if q<12 then 0 else let m=mark(0); let t=%F; 0) catch 4242", true, true},
+	{"try-par-accept-reject-1-map", "KTryAccDownMap", "try numbers(40).accept(z->slow(z)>=1).map(y->if y<12 then 0 else let m=mark(0); let t=%F; 0).sum() catch 4242", true, true},
+	{"par-map-accept-reject-1-reduce", "KAccDown", "numbers(40).map(z->slow(z)).accept(y->y>=1).reduce((p,q)->if q<12 then 0 else let m=mark(0); let t=%F; 0)", true, true},
+	{"try-par-map-accept-reject-1-reduce", "KTryAccDown", "try numbers(40).map(z->slow(z)).accept(y->y>=1).reduce((p,q)->if q<12 then 0 else let m=mark(0); let t=%F; 0) catch 4242", true, true},
+	{"try-par-accept-reject-12-reduce", "KTryAccDown", "try numbers(40).accept(z->slow(z)>=12).reduce((p,q)->if q<12 then 0 else let m=mark(0); let t=%F; 0) catch 4242", true, true},
+	{"try-par-accept-reject-12-map", "KTryAccDownMap", "try numbers(40).accept(z->slow(z)>=12).map(y->if y<12 then 0 else let m=mark(0); let t=%F; 0).sum() catch 4242", true, true},
+	{"par-map-accept-reject-12-reduce", "KAccDown", "numbers(40).map(z->slow(z)).accept(y->y>=12).reduce((p,q)->if q<12 then 0 else let m=mark(0); let t=%F; 0)", true, true},
+	{"try-par-map-accept-reject-12-reduce", "KTryAccDown", "try numbers(40).map(z->slow(z)).accept(y->y>=12).reduce((p,q)->if q<12 then 0 else let m=mark(0); let t=%F; 0) catch 4242", true, true},
 	{"try-multiuse", "KTryMultiUse", "try [1,2,3].multiUse({u:l->let m=mark(0); let t=%F; l.size(), v:l->l.size()}).u catch 4242", false, true},
 }
 
@@ -516,9 +588,12 @@ func c05Observe(c c05Case, r c05Result, have bool, death string, timedOut bool) 
 	return o
 }
 
+var c05Retried []string
+
 type c05Out struct {
 	c   c05Case
 	obs c05Obs
+	dur float64 // seconds the case's own worker process took (0 for batched cases)
 }
 
 // evaluate all cases: light ones in batches, heavy ones alone, 16 worker processes at a time;
@@ -546,16 +621,51 @@ func c05RunAll(cases []c05Case) []c05Out {
 		}
 	}
 	// long running ones first
-	sort.SliceStable(batches, func(i, j int) bool {
-		return cases[batches[i].idx[0]].Leaf.MaxStack > cases[batches[j].idx[0]].Leaf.MaxStack
-	})
+	weight := func(b batch) int {
+		c := cases[b.idx[0]]
+		w := 0
+		if strings.Contains(c.Leaf.Src, "list.multiUse") || strings.Contains(c.Leaf.Src, "list.accept") {
+			w += 4
+		}
+		if strings.Contains(c.Leaf.Src, "recursion") {
+			w += 2
+		}
+		if c.Leaf.MaxStack > 0 {
+			w++
+		}
+		return w
+	}
+	sort.SliceStable(batches, func(i, j int) bool { return weight(batches[i]) > weight(batches[j]) })
 	sem := make(chan struct{}, 16)
 	var wg sync.WaitGroup
 	runOne := func(i int) {
-		res, death, to := c05RunBatch([]c05Case{cases[i]}, []int{i}, 40*time.Second)
+		t1 := time.Now()
+		defer func() { outs[i].dur = time.Since(t1).Seconds() }()
+		limit := 40 * time.Second
+		if strings.Contains(cases[i].Leaf.Src, "recursion") {
+			limit = 150 * time.Second
+		}
+		res, death, to := c05RunBatch([]c05Case{cases[i]}, []int{i}, limit)
 		r, have := res[i]
-		outs[i] = c05Out{cases[i], c05Observe(cases[i], r, have, death, to)}
+		outs[i] = c05Out{c: cases[i], obs: c05Observe(cases[i], r, have, death, to)}
 	}
+	// the two cases that suffer most from competing processes (about 2500 nested goroutines / 3300 nested
+	// stages unwinding with wrapped errors) run before the pool starts, side by side
+	veryHeavy := func(b batch) bool {
+		src := cases[b.idx[0]].Leaf.Src
+		return len(b.idx) == 1 && (src == "recursion-through:list.multiUse" || src == "recursion-through:list.accept")
+	}
+	var rest []batch
+	for _, b := range batches {
+		if veryHeavy(b) {
+			wg.Add(1)
+			go func(i int) { defer wg.Done(); runOne(i) }(b.idx[0])
+		} else {
+			rest = append(rest, b)
+		}
+	}
+	wg.Wait()
+	batches = rest
 	for _, b := range batches {
 		wg.Add(1)
 		sem <- struct{}{}
@@ -573,7 +683,7 @@ func c05RunAll(cases []c05Case) []c05Out {
 			res, _, _ := c05RunBatch(cs, b.idx, 60*time.Second)
 			for _, i := range b.idx {
 				if r, ok := res[i]; ok {
-					outs[i] = c05Out{cases[i], c05Observe(cases[i], r, true, "", false)}
+					outs[i] = c05Out{c: cases[i], obs: c05Observe(cases[i], r, true, "", false)}
 				} else {
 					runOne(i)
 				}
@@ -584,9 +694,14 @@ func c05RunAll(cases []c05Case) []c05Out {
 	// a case that timed out while 16 processes competed is repeated alone before it is given up
 	for i := range outs {
 		if outs[i].obs.Class == "skipped" && outs[i].obs.SkipWhy == "timeout" {
+			t1 := time.Now()
+			defer func(i int) {
+				c05Retried = append(c05Retried, fmt.Sprintf("%.1fs %s / %s", outs[i].dur, cases[i].Leaf.Src, cases[i].Ctx))
+			}(i)
+			defer func(i int) { outs[i].dur = time.Since(t1).Seconds() }(i)
 			res, death, to := c05RunBatch([]c05Case{cases[i]}, []int{i}, 150*time.Second)
 			r, have := res[i]
-			outs[i] = c05Out{cases[i], c05Observe(cases[i], r, have, death, to)}
+			outs[i] = c05Out{c: cases[i], obs: c05Observe(cases[i], r, have, death, to)}
 		}
 	}
 	return outs
@@ -766,7 +881,6 @@ func c05AllLeaves(r *Rng, thorough bool) []c05Leaf {
 	return ls
 }
 
-
 // ---------- the run ----------
 
 func cmdC05(seed int64, tier, outDir string) {
@@ -794,18 +908,43 @@ func cmdC05(seed int64, tier, outDir string) {
 				}
 			}
 		}
-		for _, cn := range []string{"top", "try", "par-map", "multiuse"} {
+		// (the runaway forms are expensive since the repair: about 3300 levels of wrapped errors; thorough runs them in
+		// the goroutine contexts as well)
+		rcs := []string{"top", "try"}
+		if thorough {
+			rcs = []string{"top", "try", "par-map", "multiuse"}
+		}
+		for _, cn := range rcs {
 			cases = append(cases, c05Case{c05LeafRecRunaway(c05ShapeOf("list.map")), cn, 2})
 		}
-		cases = append(cases, c05Case{c05LeafRecRunaway(c05ShapeOf("list.accept")), "top", 16}, c05Case{c05LeafRecRunaway(c05ShapeOf("list.multiUse")), "top", 2}, c05Case{c05LeafRecRunaway(c05ShapeOf("list.multiUse")), "try", 16}, c05Case{c05LeafDeepBodyRec(), "top", 2}, c05Case{c05LeafDeepBodyRec(), "try", 16})
+		if thorough {
+			cases = append(cases, c05Case{c05LeafRecRunaway(c05ShapeOf("list.accept")), "top", 2}, c05Case{c05LeafRecRunaway(c05ShapeOf("list.multiUse")), "top", 2})
+		}
+		cases = append(cases, c05Case{c05LeafDeepBodyRec(), "top", 2}, c05Case{c05LeafDeepBodyRec(), "try", 16})
 		// recursion through every closure-taking built-in, to a depth the guard must stop
 		for i, sh := range c05RecShapes {
 			cases = append(cases, c05Case{c05LeafRecBounded(sh), "top", procs[i%3]})
+		}
+		for i, sh := range c05MixedShapes() {
+			cases = append(cases, c05Case{c05LeafMixed(sh, false), "top", procs[i%3]})
+			if sh.Between == 999 && i%2 == 0 {
+				cases = append(cases, c05Case{c05LeafMixed(sh, false), "try", procs[(i+1)%3]})
+			}
 		}
 		// representatives x every context x GOMAXPROCS (panic-class sources under all three settings)
 		k := 0
 		for _, l := range reps {
 			for _, ctx := range c05Contexts {
+				if ctx.focus() {
+					switch {
+					case l.Src == "host-panic":
+						cases = append(cases, c05Case{l, ctx.Name, 2}, c05Case{l, ctx.Name, 16})
+					case l.Src == "value" || l.Src == "host-error" || l.Src == "host-runtime-error" || l.Src == "guard-recursion" || strings.HasPrefix(l.Src, "op:%"):
+						cases = append(cases, c05Case{l, ctx.Name, procs[k%3]})
+						k++
+					}
+					continue
+				}
 				all := thorough || l.Src == "host-panic"
 				if ctx.Gor && all {
 					for _, p := range procs {
@@ -867,7 +1006,14 @@ func cmdC05(seed int64, tier, outDir string) {
 		for _, o := range outs {
 			if strings.HasPrefix(o.c.Leaf.Src, "recursion-through:") && o.c.Leaf.MaxStack == 0 && o.obs.Class == "val" {
 				m := strings.TrimPrefix(o.c.Leaf.Src, "recursion-through:")
-				if m != "list.multiUse" {
+				if strings.HasPrefix(m, "mixed:") {
+					for _, sh := range c05MixedShapes() {
+						// (one runaway form per forking method is enough to show the death)
+						if sh.Method == m && sh.Hop != "list.multiUse" && sh.Between == 999 && strings.HasPrefix(m, "mixed:999-direct-then") {
+							extra = append(extra, c05Case{c05LeafMixed(sh, true), "top", 2}, c05Case{c05LeafMixed(sh, true), "try", 2})
+						}
+					}
+				} else if m != "list.multiUse" {
 					extra = append(extra, c05Case{c05LeafRecRunaway(c05ShapeOf(m)), "top", 2})
 				}
 			}
@@ -885,6 +1031,14 @@ func cmdC05(seed int64, tier, outDir string) {
 	sum.Extra["worker_wall_s"] = time.Since(t0).Seconds()
 	sum.Extra["worker_processes_cases"] = len(cases)
 
+	slow := append([]c05Out{}, outs...)
+	sort.SliceStable(slow, func(i, j int) bool { return slow[i].dur > slow[j].dur })
+	var slowest []string
+	for i := 0; i < len(slow) && i < 40; i++ {
+		slowest = append(slowest, fmt.Sprintf("%.1fs %s / %s", slow[i].dur, slow[i].c.Leaf.Src, slow[i].c.Ctx))
+	}
+	sum.Extra["slowest_cases"] = slowest
+	sum.Extra["repeated_alone_after_timeout"] = c05Retried
 	id := 0
 	for _, o := range outs {
 		id++
@@ -922,7 +1076,7 @@ func cmdC05(seed int64, tier, outDir string) {
 		if obs.Class == "died" {
 			sum.GoViolations = append(sum.GoViolations, GoViolation{CaseID: id, What: "the worker process evaluating the program died: " + obs.Detail,
 				Sig: sig, Human: human, Expected: "a value or an error returned by Func.Eval", Observed: "process terminated"})
-		} else if strings.HasPrefix(c.Leaf.Src, "recursion-through:") && c.Leaf.MaxStack == 0 && (obs.Class == "val" || obs.Class == "catch") {
+		} else if strings.HasPrefix(c.Leaf.Src, "recursion-through:") && c.Leaf.MaxStack == 0 && obs.Class == "val" {
 			sum.GoViolations = append(sum.GoViolations, GoViolation{CaseID: id, What: fmt.Sprintf("the recursion guard did not fire: recursion through %s reached depth %d (every level on a fresh value stack); runaway recursion of this shape exhausts the Go stack or the memory",
 				strings.TrimPrefix(c.Leaf.Src, "recursion-through:"), c05RecBound),
 				Sig: sig, Human: human, Expected: "error: stack overflow; maybe a recursive function does not terminate", Observed: "value " + obs.Detail})
